@@ -181,6 +181,12 @@ class BGP(protocol.Protocol):
         """
         buf = self._receive_buffer
 
+        if self.disconnected:
+            # We already closed this connection (error or stop): whatever
+            # is left in the stream must not be processed any more.
+            self._receive_buffer = b''
+            return False
+
         if len(buf) < bgp_cons.HDR_LEN:
             # Every BGP message is at least 19 octets. Maybe the rest
             # hasn't arrived yet.
@@ -203,6 +209,7 @@ class BGP(protocol.Protocol):
             # Check the length of the message, must be less than 4096, bigger than 19
         if length < bgp_cons.HDR_LEN or length > bgp_cons.MAX_LEN:
             self.fsm.header_error(bgp_cons.ERR_MSG_HDR_BAD_MSG_LEN, struct.pack('!H', length))
+            return False
             # Check whether the entire message is already available
         if len(buf) < length:
             return False
@@ -241,6 +248,7 @@ class BGP(protocol.Protocol):
                 # unknown message type
                 self.fsm.header_error(
                     bgp_cons.ERR_MSG_HDR_BAD_MSG_TYPE, struct.pack('!H', msg_type))
+                return False
         except Exception as e:
             LOG.error(e)
             error_str = traceback.format_exc()
